@@ -28,6 +28,8 @@ var exprAlphabet = []string{"(", ")", "[", "]", ".", "..", "@", ",", "::", "/", 
 	"AND", "Or", "DIV", "Mod",
 	// XPath literals have no escapes: a backslash is an ordinary character, also right before the closing quote
 	"\"\\\"", "'a\\'", "\"x\\\\\"",
+	// a literal may hold any character, also those whose code equals a token value of the lexer (0xF001...)
+	"'\uf001'", "\"\uf000\uf002\"",
 	// a quote that opens a literal which never ends (as the last token: nothing at all follows it)
 	"'", "\""}
 
@@ -142,11 +144,12 @@ var lexical = []string{
 	"a AND b", "a Or b", "1 DIV 2", "a Mod b", "AND", "a/AND", "AND and Or", "DIV div Mod", "a and b OR c", "Div(1)", "a aNd b",
 	"a and b", "a or b", "a and", "and a", "a andb", "aand b", "a and and", "a div b", "a mod b", "a div", "div", "1 div 2", "1div 2", "1 div2", "1div2", "(1)div(2)", "1 mod(2)", "a=b", "a!=b", "a!b", "a=!b", "a==b", "a<b", "a<=b", "a=<b", "a>b", "a>=b", "a=>b", "a<>b", "a<<b", "a< =b", "a! =b", "1<2<3", "1=2=3", "a+b", "a+", "+a", "a++b", "1+-1", "1-+1", "a,b", ",", "a,", "(a,b)",
 	"é", "éa", "aé", "·a", "a·", "a\u0300", "\u0300a", "a\u203f", "\u203fa", "a\u00d7", "\u00d7", "a\u00f7b", "\u037e", "a\u037e", "\u2000a", "a\u2000", "\u3000", "a\u3000b", "\ufffe", "a\ufffe", "\U000effff", "\U000f0000", "a\U000f0000", "日本:語", "p:日本", "日本:*",
+	"a = '\uf001'", "concat('\uf001', \"\uf00f\")", "\uf001", "a\uf001",
 }
 
 var boundaryRunes = []rune{0xB6, 0xB7, 0xB8, 0xBF, 0xC0, 0xD6, 0xD7, 0xD8, 0xF6, 0xF7, 0xF8, 0x2FF, 0x300, 0x36F, 0x370, 0x37D, 0x37E, 0x37F, 0x1FFF, 0x2000,
 	0x200B, 0x200C, 0x200D, 0x200E, 0x203E, 0x203F, 0x2040, 0x2041, 0x206F, 0x2070, 0x218F, 0x2190, 0x2BFF, 0x2C00, 0x2FEF, 0x2FF0, 0x3000, 0x3001,
-	0xD7FF, 0xE000, 0xF8FF, 0xF900, 0xFDCF, 0xFDD0, 0xFDEF, 0xFDF0, 0xFFFD, 0xFFFE, 0xFFFF, 0x10000, 0xEFFFF, 0xF0000, 0x10FFFF}
+	0xD7FF, 0xE000, 0xF000, 0xF001, 0xF002, 0xF010, 0xF8FF, 0xF900, 0xFDCF, 0xFDD0, 0xFDEF, 0xFDF0, 0xFFFD, 0xFFFE, 0xFFFF, 0x10000, 0xEFFFF, 0xF0000, 0x10FFFF}
 
 func genCase(t *rapid.T) Case {
 	pick := func(n int, l string) int { return rapid.IntRange(0, n-1).Draw(t, l) }
